@@ -1475,7 +1475,7 @@ Proof.
   assert (HO : forall x, Osum s1 x = 0).
   { intros x. unfold Osum, opbuf_ids, handle_ids. rewrite Hops, Hpe, Hha. reflexivity. }
   split; [|rewrite Hnb; repeat split; try assumption; try (rewrite <- Hnb; assumption);
-           try (intros A; destruct (Hcells A) as (B & C & D); assumption)].
+           try (match goal with A : u = true |- _ => destruct (Hcells A) as (B & C & D); assumption end)].
   split.
   - constructor.
     + rewrite Hnb. exact Hp.
@@ -1518,4 +1518,727 @@ Proof.
   destruct (pool_new_inv u size H1 H2) as (s0' & E0' & I0 & _).
   rewrite E0 in E0'. injection E0' as <-.
   apply (steps_inv ls s0 _ I0 Es).
+Qed.
+
+(* ====================================================================== *)
+(* 7. the property theorems                                                *)
+
+Lemma owners_ops_length id (f : opst -> list nat) mk l : forall k,
+  length (owners_ops id f mk l k) = occ id (flat_map f l).
+Proof.
+  induction l as [|o l IH]; intros k; [reflexivity|].
+  cbn [owners_ops flat_map]. rewrite app_length, repeat_length, occ_app, IH. reflexivity.
+Qed.
+
+Lemma owners_handles_length id l : forall h, length (owners_handles id l h) = occ id (opt_ids l).
+Proof.
+  induction l as [|e l IH]; intros h; [reflexivity|].
+  cbn [owners_handles]. rewrite app_length, IH.
+  change (opt_ids (e :: l)) with ((match e with Some i => [i] | None => [] end) ++ opt_ids l).
+  rewrite occ_app. destruct e as [i|]; [|reflexivity]. rewrite occ_one. destruct (Nat.eqb id i); reflexivity.
+Qed.
+
+Lemma owners_cq_length id (l : list cqe) :
+  length (flat_map (fun c => match c_id c with
+                             | Some i => if Nat.eqb id i then [OwSelected (c_op c)] else []
+                             | None => [] end) l) = occ id (opt_ids (map c_id l)).
+Proof.
+  induction l as [|c l IH]; [reflexivity|].
+  cbn [flat_map map]. rewrite app_length, IH.
+  change (opt_ids (c_id c :: map c_id l)) with ((match c_id c with Some i => [i] | None => [] end) ++ opt_ids (map c_id l)).
+  rewrite occ_app. destruct (c_id c) as [i|]; [|reflexivity]. rewrite occ_one. destruct (Nat.eqb id i); reflexivity.
+Qed.
+
+Lemma owners_length s id : length (owners s id) = tot [] [] s id.
+Proof.
+  unfold owners, tot, Ssum, Osum, guard_ids, opbuf_ids, handle_ids.
+  rewrite !app_length, !repeat_length, !owners_ops_length, owners_handles_length.
+  assert (E : length (if released s then [] else
+                        flat_map (fun c => match c_id c with
+                                           | Some i => if Nat.eqb id i then [OwSelected (c_op c)] else []
+                                           | None => [] end) (cq s)) = occ id (cq_ids s)).
+  { unfold cq_ids. destruct (released s); [reflexivity|apply owners_cq_length]. }
+  rewrite E, !occ_nil. lia.
+Qed.
+
+Lemma owners_handles_In id l : forall k h, nth_error l h = Some (Some id) ->
+  In (OwHandle (k + h)) (owners_handles id l k).
+Proof.
+  induction l as [|e l IH]; intros k h H; [destruct h; discriminate|].
+  cbn [owners_handles]. apply in_or_app. destruct h as [|h]; cbn [nth_error] in H.
+  - injection H as ->. left. rewrite Nat.eqb_refl, Nat.add_0_r. left; reflexivity.
+  - right. replace (k + S h) with (S k + h) by lia. apply IH. exact H.
+Qed.
+
+Lemma singleton_of_length {A} (l : list A) x : length l = 1 -> In x l -> l = [x].
+Proof.
+  destruct l as [|a [|b l]]; cbn; try discriminate. intros _ [->|[]]. reflexivity.
+Qed.
+
+Theorem exclusive_thm u size ls s :
+  1 <= size -> (NN size <= 32768)%N -> reach u size ls s ->
+  (forall id, id < nbuf s -> exists o, owners s id = [o]) /\
+  (forall id, nbuf s <= id -> owners s id = []) /\
+  (forall h1 h2 id, live_handle s h1 = Some id -> live_handle s h2 = Some id -> h1 = h2) /\
+  (forall h id, live_handle s h = Some id -> owners s id = [OwHandle h]) /\
+  (forall id, kernel_target s = Some id -> owners s id = [OwRing]).
+Proof.
+  intros H1 H2 Hr. destruct (reach_inv u size ls s H1 H2 Hr) as (P & _).
+  assert (Hone : forall id, id < nbuf s -> length (owners s id) = 1).
+  { intros id Hid. rewrite owners_length. apply (p_tot _ _ _ P id Hid). }
+  assert (Hlive : forall h id, live_handle s h = Some id -> nth_error (handles s) h = Some (Some id)).
+  { intros h id. unfold live_handle. destruct (nth_error (handles s) h) as [[i|]|]; congruence. }
+  assert (Hhid : forall h id, live_handle s h = Some id -> id < nbuf s).
+  { intros h id Hl. apply Hlive in Hl. apply (pinv_id_lt _ _ _ _ P). unfold tot, Osum, handle_ids.
+    assert (1 <= occ id (opt_ids (handles s))); [|lia].
+    apply occ_In. unfold opt_ids. apply in_flat_map. exists (Some id).
+    split; [eapply nth_error_In; eauto|left; reflexivity]. }
+  split; [|split; [|split; [|split]]].
+  - intros id Hid. specialize (Hone id Hid). destruct (owners s id) as [|o [|o' l]]; try discriminate.
+    exists o; reflexivity.
+  - intros id Hid. pose proof (p_out _ _ _ P id Hid) as E. rewrite <- owners_length in E.
+    destruct (owners s id); [reflexivity|discriminate].
+  - intros h1 h2 id L1 L2. pose proof (Hhid _ _ L1) as Hid. apply Hlive in L1. apply Hlive in L2.
+    destruct (Nat.lt_trichotomy h1 h2) as [Hlt|[Heq|Hgt]]; [|exact Heq|].
+    + pose proof (occ_two_positions _ _ _ _ Hlt L1 L2) as T.
+      pose proof (p_tot _ _ _ P id Hid) as E. unfold tot, Osum, handle_ids in E. lia.
+    + pose proof (occ_two_positions _ _ _ _ Hgt L2 L1) as T.
+      pose proof (p_tot _ _ _ P id Hid) as E. unfold tot, Osum, handle_ids in E. lia.
+  - intros h id L. pose proof (Hhid _ _ L) as Hid. apply Hlive in L.
+    apply singleton_of_length; [apply Hone; exact Hid|].
+    unfold owners. do 5 (apply in_or_app; right). apply in_or_app. left.
+    apply (owners_handles_In id (handles s) 0 h L).
+  - intros id Hk. unfold kernel_target in Hk.
+    destruct (uring s) eqn:Hu; cbn [andb] in Hk; [|discriminate].
+    destruct (released s) eqn:Hrel; cbn [negb] in Hk; [discriminate|].
+    pose proof (pinv_ring_pop [] [] s P Hu Hrel) as Hpop.
+    destruct (ring_ids s) as [|i r] eqn:Hri.
+    + rewrite Hpop in Hk. discriminate.
+    + destruct Hpop as (s' & E & _). rewrite E in Hk. injection Hk as ->.
+      assert (Hid : id < nbuf s).
+      { apply (pinv_id_lt _ _ _ _ P). unfold tot. rewrite Hri, occ_cons, Nat.eqb_refl. lia. }
+      apply singleton_of_length; [apply Hone; exact Hid|].
+      unfold owners. apply in_or_app. left. rewrite Hri, occ_cons, Nat.eqb_refl. cbn [plus repeat]. left; reflexivity.
+Qed.
+
+(* nbuf and the driver kind never change *)
+Lemma reset_all_holders ids : forall s s', reset_all s ids = Ok s' -> same_holders s s'.
+Proof.
+  induction ids as [|id r IH]; intros s s' E; cbn [reset_all] in E.
+  - injection E as <-. repeat split.
+  - destruct (sh_reset s id) as [s1|c] eqn:E1; cbn [rbind] in E; [|discriminate].
+    pose proof (sh_reset_holders _ _ _ E1) as (a1&a2&a3&a4&a5&a6&a7&a8&a9).
+    pose proof (IH _ _ E) as (b1&b2&b3&b4&b5&b6&b7&b8&b9). repeat split; congruence.
+Qed.
+
+Lemma step_nbuf s l s' : step s l = Some (Ok s') -> nbuf s' = nbuf s /\ uring s' = uring s.
+Proof.
+  destruct l; cbn [step]; intros E;
+    repeat match type of E with
+           | context [match ?x with _ => _ end] => destruct x eqn:?; try discriminate
+           | Some (sh_reset _ _) = Some (Ok _) =>
+             let H := fresh in injection E as H; apply sh_reset_holders in H;
+             destruct H as (?&?&_); cbn in *; split; congruence
+           | Some (reset_all _ _) = Some (Ok _) =>
+             let H := fresh in injection E as H; apply reset_all_holders in H;
+             destruct H as (?&?&_); cbn in *; split; congruence
+           | Some (Ok _) = Some (Ok _) => injection E as <-; split; cbn; congruence
+           end.
+  all: try (unfold kernel_select in *; destruct (ring_empty s); try discriminate;
+            match goal with H : Some (_, _) = Some (_, _) |- _ => injection H as <- <- end;
+            injection E as <-; split; cbn; congruence).
+Qed.
+
+Lemma steps_nbuf ls : forall s s', steps s ls = Some (Ok s') -> nbuf s' = nbuf s /\ uring s' = uring s.
+Proof.
+  induction ls as [|l ls IH]; intros s s' E; cbn [steps] in E.
+  - injection E as <-. split; reflexivity.
+  - destruct (step s l) as [[s1|c]|] eqn:E1; try discriminate.
+    destruct (step_nbuf _ _ _ E1) as (A & B). destruct (IH _ _ E) as (C & D). split; congruence.
+Qed.
+
+Definition all_ids (s : st) : list nat :=
+  ring_ids s ++ cq_ids s ++ guard_ids s ++ loose s ++ pend s ++ opbuf_ids s ++ handle_ids s ++ freed s.
+
+Theorem conservation_thm u size ls s :
+  1 <= size -> (NN size <= 32768)%N -> reach u size ls s ->
+  size <= nbuf s /\ pow2_le15 (nbuf s) /\
+  length (ring_ids s) + n_selected s + n_transit s + n_inop s + n_handles s + length (freed s) = nbuf s /\
+  (released s = false -> freed s = []) /\
+  (released s = false -> quiet s = true ->
+     length (ring_ids s) = nbuf s /\ forall id, id < nbuf s -> In id (ring_ids s)) /\
+  (released s = true -> ring_ids s = [] /\ n_selected s = 0 /\
+                        n_transit s + n_inop s + n_handles s + length (freed s) = nbuf s).
+Proof.
+  intros H1 H2 Hr. pose proof (reach_inv u size ls s H1 H2 Hr) as (P & Hh).
+  destruct Hr as (s0 & E0 & Es).
+  destruct (pool_new_inv u size H1 H2) as (s0' & E0' & _ & Hsz & _).
+  rewrite E0 in E0'. injection E0' as <-.
+  destruct (steps_nbuf _ _ _ Es) as (Hn & _).
+  assert (Hlen : length (all_ids s) = nbuf s).
+  { apply length_of_occ.
+    - intros x Hx. pose proof (p_tot _ _ _ P x Hx) as E. unfold tot, Ssum, Osum in E.
+      unfold all_ids. occs. occs in E. lia.
+    - intros x Hx. pose proof (p_out _ _ _ P x Hx) as E. unfold tot, Ssum, Osum in E.
+      unfold all_ids. occs. occs in E. lia. }
+  assert (Hsum : length (ring_ids s) + n_selected s + n_transit s + n_inop s + n_handles s + length (freed s) = nbuf s).
+  { unfold all_ids in Hlen. rewrite !app_length in Hlen. unfold n_selected, n_transit, n_inop, n_handles. lia. }
+  split; [lia|]. split; [apply (p_pow _ _ _ P)|]. split; [exact Hsum|].
+  split; [apply (p_freed _ _ _ P)|]. split.
+  - intros Hrel Hq. pose proof (p_freed _ _ _ P Hrel) as Hf. unfold quiet in Hq. apply Nat.eqb_eq in Hq.
+    rewrite Hf in Hsum. cbn [length] in Hsum. split; [lia|].
+    intros id Hid. apply occ_In. pose proof (p_tot _ _ _ P id Hid) as E. unfold tot, Ssum, Osum in E.
+    rewrite Hf in E. occs in E.
+    assert (Z : forall l : list nat, length l = 0 -> occ id l = 0) by (intros [|a l] Hl; [reflexivity|discriminate]).
+    unfold n_selected, n_transit, n_inop, n_handles in Hq.
+    rewrite (Z (cq_ids s)), (Z (guard_ids s)), (Z (loose s)), (Z (pend s)), (Z (opbuf_ids s)), (Z (handle_ids s)) in E by lia.
+    lia.
+  - intros Hrel. destruct (p_rel _ _ _ P Hrel) as (_ & Hri & Hlo & _).
+    assert (Hsel : n_selected s = 0).
+    { unfold n_selected, cq_ids, guard_ids, guard_ids_of. rewrite Hrel. rewrite flat_map_const_nil. reflexivity. }
+    split; [exact Hri|]. split; [exact Hsel|]. rewrite Hri, Hsel in Hsum. cbn [length] in Hsum. lia.
+Qed.
+
+Theorem no_panic_thm u size ls s l c :
+  1 <= size -> (NN size <= 32768)%N -> reach u size ls s -> step s l <> Some (Panic c).
+Proof.
+  intros H1 H2 Hr E. pose proof (step_good s l (reach_inv u size ls s H1 H2 Hr)) as G.
+  rewrite E in G. exact G.
+Qed.
+
+(* exhaustion *)
+Theorem exhaustion_fallback_thm s :
+  uring s = false -> released s = false ->
+  (queue s = [] -> step s LPop = Some (Ok (set_nbusy s (S (nbusy s))))) /\
+  (forall id q, queue s = id :: q -> forall s', step s LPop = Some (Ok s') ->
+     nbusy s' = nbusy s /\ pend s' = pend s ++ [id] /\ queue s' = q).
+Proof.
+  intros Hu Hr. split.
+  - intros Hq. cbn [step]. rewrite Hr, Hu, Hq. reflexivity.
+  - intros id q Hq s'. cbn [step]. rewrite Hr, Hu, Hq.
+    destruct (slot_take (slots s) id); [|discriminate]. intros E. injection E as <-. repeat split.
+Qed.
+
+Theorem exhaustion_uring_thm u size ls s :
+  1 <= size -> (NN size <= 32768)%N -> reach u size ls s -> uring s = true -> released s = false ->
+  (ring_empty s = true <-> ring_ids s = []) /\
+  (ring_ids s = [] -> forall k more r, step s (LKernel k true more r) = None) /\
+  (ring_ids s = [] -> forall k o, nth_error (ops s) k = Some o -> o_inflight o = true -> o_kdone o = false ->
+     exists s1, step s (LKernel k false false RNoBufs) = Some (Ok s1) /\
+                cq s1 = cq s ++ [mk_cqe k None false RNoBufs]) /\
+  (ring_ids s <> [] -> forall k more, step s (LKernel k false more RNoBufs) = None).
+Proof.
+  intros H1 H2 Hr Hu Hrel. destruct (reach_inv u size ls s H1 H2 Hr) as (P & _).
+  pose proof (ring_empty_iff s (p_pow _ _ _ P) Hu (p_ring _ _ _ P Hu Hrel)) as Hiff.
+  split; [exact Hiff|]. split; [|split].
+  - intros He k more r. cbn [step]. destruct (nth_error (ops s) k) as [o|]; [|reflexivity].
+    destruct (o_kdone o || (uring s && negb (o_inflight o))); [reflexivity|].
+    rewrite Hu, Hrel. cbn [negb orb]. destruct (rescls_eqb r RNoBufs); [reflexivity|].
+    unfold kernel_select. rewrite (proj2 Hiff He). reflexivity.
+  - intros He k o Hk Hi Hd. cbn [step]. rewrite Hk, Hd, Hu, Hi. cbn [negb andb orb rescls_eqb].
+    rewrite (proj2 Hiff He). cbn [negb andb]. eexists. split; reflexivity.
+  - intros Hne k more. cbn [step]. destruct (nth_error (ops s) k) as [o|]; [|reflexivity].
+    destruct (o_kdone o || (uring s && negb (o_inflight o))); [reflexivity|].
+    cbn [rescls_eqb andb]. rewrite Hu. cbn [andb].
+    destruct (ring_empty s) eqn:He; [exfalso; apply Hne; apply Hiff; reflexivity|]. reflexivity.
+Qed.
+
+Theorem exhaustion_result_thm s k o rest :
+  released s = false -> cq s = mk_cqe k None false RNoBufs :: rest -> nth_error (ops s) k = Some o ->
+  exists s', step s LCqe = Some (Ok s') /\ nbusy s' = S (nbusy s) /\
+             exists o', nth_error (ops s') k = Some o' /\ o_res o' = Some RNoBufs.
+Proof.
+  intros Hr Hc Hk. cbn [step]. rewrite Hr, Hc. cbn [c_op c_more c_id c_res set_cq ops]. rewrite Hk.
+  cbn [rescls_eqb]. eexists. split; [reflexivity|]. split; [cbn; lia|].
+  eexists. split.
+  - unfold upd_op, set_ops, set_nbusy. cbn [ops]. apply set_nth_eq. eapply nth_error_lt; eauto.
+  - reflexivity.
+Qed.
+
+Lemma NoDup_snoc {A} (l : list A) x : NoDup l -> ~ In x l -> NoDup (l ++ [x]).
+Proof.
+  induction l as [|a l IH]; intros Hnd Hx.
+  - constructor; [intros []|constructor].
+  - inversion Hnd as [|a' l' Ha Hl]; subst. cbn [app]. constructor.
+    + intros Hin. apply in_app_or in Hin. destruct Hin as [Hin|[<-|[]]]; [contradiction|].
+      apply Hx. left; reflexivity.
+    + apply IH; [exact Hl|]. intros Hin. apply Hx. right; exact Hin.
+Qed.
+
+Lemma NoDup_map_window (f : nat -> nat) c :
+  (forall i j, i < j -> j < c -> f i <> f j) -> NoDup (map f (seq 0 c)).
+Proof.
+  induction c as [|c IH]; intros H; [constructor|].
+  rewrite seq_S, map_app. cbn [map plus]. apply NoDup_snoc.
+  - apply IH. intros i j Hij Hj. apply H; lia.
+  - intros Hin. apply in_map_iff in Hin. destruct Hin as (i & E & Hi). apply in_seq in Hi.
+    apply (H i c); [lia|lia|exact E].
+Qed.
+
+(* the ring indices *)
+Theorem ring_index_thm size ls s :
+  1 <= size -> (NN size <= 32768)%N -> reach true size ls s -> released s = false ->
+  (tail s < U16)%N /\ (head s < U16)%N /\ ring_count s <= nbuf s /\ length (cells s) = nbuf s /\
+  (* the checked u16 addition of add_buffer does not overflow *)
+  ring_idx (tail s) 0%N (nbuf s) = Ok (nn (tail s mod NN (nbuf s))%N) /\
+  nn (tail s mod NN (nbuf s))%N < nbuf s /\
+  (* live entries sit in pairwise distinct cells ... *)
+  NoDup (map (fun i => kernel_idx s (head s + NN i)%N) (seq 0 (ring_count s))) /\
+  (* ... none of which is the cell the next reset writes, unless the ring is full *)
+  (ring_count s < nbuf s ->
+   ~ In (nn (tail s mod NN (nbuf s))%N) (map (fun i => kernel_idx s (head s + NN i)%N) (seq 0 (ring_count s)))) /\
+  (* the kernel's u16 emptiness test agrees with the content of the ring *)
+  (ring_empty s = true <-> ring_ids s = []).
+Proof.
+  intros H1 H2 Hr Hrel. destruct (reach_inv true size ls s H1 H2 Hr) as (P & _).
+  assert (Hu : uring s = true).
+  { destruct Hr as (s0 & E0 & Es). destruct (pool_new_inv true size H1 H2) as (s0' & E0' & _ & _ & Hu0 & _).
+    rewrite E0 in E0'. injection E0' as <-. destruct (steps_nbuf _ _ _ Es) as (_ & B). congruence. }
+  pose proof (p_pow _ _ _ P) as Hp. pose proof (p_ring _ _ _ P Hu Hrel) as Hwf.
+  destruct (ring_ids_length s Hp Hu Hwf) as (c & Hc & Ht & Hcnt & Hlen).
+  pose proof Hwf as [Hl Hh _]. pose proof (tail_lt s Hwf) as Htl. pose proof (pow2_pos _ Hp) as Hn0.
+  pose proof (pow2_bound _ Hp) as Hb.
+  assert (Hidx : nn (tail s mod NN (nbuf s))%N < nbuf s).
+  { pose proof (N.mod_upper_bound (tail s) (NN (nbuf s)) ltac:(lia)). unfold nn, NN in *. lia. }
+  assert (Hki : forall i, kernel_idx s (head s + NN i)%N = nn ((head s + NN i) mod NN (nbuf s))%N).
+  { intros i. apply kernel_idx_mod. exact Hp. }
+  split; [exact Htl|]. split; [exact Hh|]. split; [lia|]. split; [exact Hl|]. split; [|split; [exact Hidx|split; [|split]]].
+  - unfold ring_idx, u16_add. rewrite N.add_0_r. destruct (N.ltb_spec (tail s) U16); [reflexivity|lia].
+  - rewrite Hcnt. apply NoDup_map_window. intros i j Hij Hj. rewrite !Hki. intros E. apply N2Nat.inj in E.
+    revert E. apply mod_distinct; [exact Hn0| |]; unfold NN in *; lia.
+  - rewrite Hcnt. intros Hlt Hin. apply in_map_iff in Hin. destruct Hin as (i & E & Hi). apply in_seq in Hi.
+    rewrite Hki in E. rewrite Ht, mod_U16_mod in E by exact Hp. apply N2Nat.inj in E.
+    revert E. apply mod_distinct; [exact Hn0| |]; unfold NN in *; lia.
+  - apply ring_empty_iff; assumption.
+Qed.
+
+(* ====================================================================== *)
+(* 8. nothing blocks: the holders can always be drained, which refills the
+      ring completely (the kernel cancels what it still owns; every other
+      label of the drain is a drop performed by the library / the user)     *)
+
+Definition infl_cnt (s : st) : nat := length (filter o_inflight (ops s)).
+Definition q_cnt (s : st) : nat := length (flat_map o_q (ops s)).
+Definition mu (s : st) : nat :=
+  4 * infl_cnt s + 3 * length (cq s) + 2 * length (loose s) + 2 * q_cnt s
+  + length (pend s) + length (opbuf_ids s) + length (handle_ids s).
+
+Lemma filter_set_nth_length {A} (f : A -> bool) (l : list A) k o o' :
+  nth_error l k = Some o ->
+  length (filter f (set_nth l k o')) + (if f o then 1 else 0) = length (filter f l) + (if f o' then 1 else 0).
+Proof.
+  revert k; induction l as [|a l IH]; intros [|k] H; cbn [nth_error] in H; try discriminate.
+  - injection H as ->. cbn [set_nth filter]. destruct (f o), (f o'); cbn [length]; lia.
+  - cbn [set_nth filter]. specialize (IH k H). destruct (f a); cbn [length]; lia.
+Qed.
+
+Lemma length_flat_map_set_nth' {A B} (f : A -> list B) (l : list A) k o o' :
+  nth_error l k = Some o ->
+  length (flat_map f (set_nth l k o')) + length (f o) = length (flat_map f l) + length (f o').
+Proof.
+  revert k; induction l as [|a l IH]; intros [|k] H; cbn [nth_error] in H; try discriminate.
+  - injection H as ->. cbn [set_nth flat_map]. rewrite !app_length. lia.
+  - cbn [set_nth flat_map]. rewrite !app_length. specialize (IH k H). lia.
+Qed.
+
+Lemma mu_upd s k o o' :
+  nth_error (ops s) k = Some o ->
+  infl_cnt (upd_op s k o') + (if o_inflight o then 1 else 0) = infl_cnt s + (if o_inflight o' then 1 else 0) /\
+  q_cnt (upd_op s k o') + length (o_q o) = q_cnt s + length (o_q o') /\
+  length (opbuf_ids (upd_op s k o')) + length (o_buf o) = length (opbuf_ids s) + length (o_buf o').
+Proof.
+  intros Hk. unfold infl_cnt, q_cnt, opbuf_ids, upd_op, set_ops. cbn [ops].
+  split; [apply filter_set_nth_length; exact Hk|]. split; apply length_flat_map_set_nth'; exact Hk.
+Qed.
+
+Lemma mu_same_holders s s' : same_holders s s' -> mu s' = mu s.
+Proof.
+  intros (_ & _ & _ & Hp & Ho & Hc & Hl & Hh & _). unfold mu, infl_cnt, q_cnt, opbuf_ids, handle_ids.
+  rewrite Hp, Ho, Hc, Hl, Hh. reflexivity.
+Qed.
+
+Lemma exists_inflight (l : list opst) :
+  filter o_inflight l <> [] -> exists k o, nth_error l k = Some o /\ o_inflight o = true.
+Proof.
+  induction l as [|a l IH]; cbn [filter]; [congruence|].
+  destruct (o_inflight a) eqn:E.
+  - intros _. exists 0, a. split; [reflexivity|exact E].
+  - intros H. destruct (IH H) as (k & o & Hk & Ho). exists (S k), o. split; assumption.
+Qed.
+
+Lemma exists_nonempty {B} (f : opst -> list B) (l : list opst) :
+  flat_map f l <> [] -> exists k o, nth_error l k = Some o /\ f o <> [].
+Proof.
+  induction l as [|a l IH]; cbn [flat_map]; [congruence|].
+  destruct (f a) as [|b r] eqn:E.
+  - cbn [app]. intros H. destruct (IH H) as (k & o & Hk & Ho). exists (S k), o. split; assumption.
+  - intros _. exists 0, a. split; [reflexivity|congruence].
+Qed.
+
+Lemma exists_handle (l : list (option nat)) :
+  opt_ids l <> [] -> exists h id, nth_error l h = Some (Some id).
+Proof.
+  induction l as [|e l IH]; [cbn; congruence|].
+  destruct e as [id|].
+  - intros _. exists 0, id. reflexivity.
+  - change (opt_ids (None :: l)) with (opt_ids l). intros H. destruct (IH H) as (h & id & Hh). exists (S h), id. exact Hh.
+Qed.
+
+Lemma no_inflight (l : list opst) k o :
+  filter o_inflight l = [] -> nth_error l k = Some o -> o_inflight o = false.
+Proof.
+  revert k; induction l as [|a l IH]; intros [|k] H Hk; cbn [nth_error] in Hk; try discriminate; cbn [filter] in H.
+  - injection Hk as ->. destruct (o_inflight o); [discriminate|reflexivity].
+  - destruct (o_inflight a); [discriminate|]. apply (IH k H Hk).
+Qed.
+
+Lemma length_zero_nil {A} (l : list A) : length l = 0 -> l = [].
+Proof. destruct l; [reflexivity|discriminate]. Qed.
+
+(* an operation nobody in the kernel owns any more can be dropped *)
+Lemma drained_op_free s k o :
+  hinv s -> released s = false -> filter o_inflight (ops s) = [] -> cq s = [] ->
+  nth_error (ops s) k = Some o -> op_free s o = true.
+Proof.
+  intros [_ _ C] Hr Hi Hc Hk. unfold op_free. rewrite Hr, (no_inflight _ _ _ Hi Hk). cbn [orb negb andb].
+  destruct (o_kdone o) eqn:Hd; [|reflexivity]. cbn [negb orb].
+  destruct (o_res o) eqn:Hres; [reflexivity|].
+  destruct (C Hr k o Hk Hd Hres) as (c & Hin & _). rewrite Hc in Hin. destruct Hin.
+Qed.
+
+Lemma step_released s l s' : step s l = Some (Ok s') -> l <> LRelease -> released s' = released s.
+Proof.
+  intros E Hl. destruct l; try congruence; cbn [step] in E;
+    repeat match type of E with
+           | context [match ?x with _ => _ end] => destruct x eqn:?; try discriminate
+           | Some (sh_reset _ _) = Some (Ok _) =>
+             let H := fresh in injection E as H; apply sh_reset_holders in H;
+             destruct H as (_&_&H&_); cbn in *; congruence
+           | Some (reset_all _ _) = Some (Ok _) =>
+             let H := fresh in injection E as H; apply reset_all_holders in H;
+             destruct H as (_&_&H&_); cbn in *; congruence
+           | Some (Ok _) = Some (Ok _) => injection E as <-; cbn; congruence
+           end.
+  all: try (unfold kernel_select in *; destruct (ring_empty s); try discriminate;
+            match goal with H : Some (_, _) = Some (_, _) |- _ => injection H as <- <- end;
+            injection E as <-; cbn; congruence).
+Qed.
+
+Lemma good_ok s r : good s r -> r <> None -> exists s', r = Some (Ok s') /\ inv s'.
+Proof.
+  destruct r as [[s'|c]|]; cbn [good]; intros G N; [exists s'; split; [reflexivity|exact G]|contradiction|congruence].
+Qed.
+
+Lemma progress s :
+  inv s -> released s = false -> 0 < mu s ->
+  exists l s', step s l = Some (Ok s') /\ inv s' /\ released s' = false /\ mu s' < mu s.
+Proof.
+  intros Hinv Hr Hmu. pose proof Hinv as (P & Hh).
+  (* 1. the kernel finishes (cancels) an operation it still owns *)
+  destruct (filter o_inflight (ops s)) as [|oi fl] eqn:Hfi.
+  2:{ destruct (exists_inflight (ops s) ltac:(rewrite Hfi; discriminate)) as (k & o & Hk & Hi).
+      assert (Hd : o_kdone o = false).
+      { destruct Hh as [_ B _]. rewrite Forall_forall in B. apply (B o); [eapply nth_error_In; eauto|exact Hi]. }
+      exists (LKernel k false false RCancel).
+      pose proof (step_good s (LKernel k false false RCancel) Hinv) as G.
+      cbn [step] in G |- *. rewrite Hk, Hd, Hi in G |- *. cbn [negb andb orb rescls_eqb] in G |- *.
+      rewrite Bool.andb_false_r in G |- *. cbn [negb andb orb] in G |- *.
+      eexists. split; [reflexivity|]. split; [exact G|]. split; [exact Hr|].
+      set (o' := mk_op false true (o_buf o) (o_q o) (o_res o)).
+      destruct (mu_upd s k o o' Hk) as (A & B & C). cbn [o_inflight o_q o_buf o'] in A, B, C. rewrite Hi in A.
+      unfold mu. change (infl_cnt (set_cq (upd_op s k o') _)) with (infl_cnt (upd_op s k o')).
+      change (q_cnt (set_cq (upd_op s k o') _)) with (q_cnt (upd_op s k o')).
+      change (opbuf_ids (set_cq (upd_op s k o') _)) with (opbuf_ids (upd_op s k o')).
+      cbn [cq set_cq loose pend]. change (loose (upd_op s k o')) with (loose s). change (pend (upd_op s k o')) with (pend s).
+      change (handle_ids (set_cq (upd_op s k o') _)) with (handle_ids s).
+      rewrite app_length. cbn [length]. lia. }
+  (* 2. the driver reaps a completion *)
+  destruct (cq s) as [|c rest] eqn:Hc.
+  2:{ exists LCqe.
+      pose proof (step_good s LCqe Hinv) as G.
+      assert (Hlt : c_op c < length (ops s)).
+      { destruct Hh as [A _ _]. rewrite Hc in A. inversion A; assumption. }
+      destruct (nth_error (ops s) (c_op c)) as [o|] eqn:Hk; [|apply nth_error_None in Hk; lia].
+      cbn [step] in G |- *. rewrite Hr, Hc in G |- *. cbn [set_cq ops] in G |- *. rewrite Hk in G |- *.
+      assert (Hi0 : infl_cnt s = 0) by (unfold infl_cnt; rewrite Hfi; reflexivity).
+      destruct (c_more c).
+      - eexists. split; [reflexivity|]. split; [exact G|]. split; [exact Hr|].
+        set (o' := mk_op (o_inflight o) (o_kdone o) (o_buf o) (o_q o ++ [c_id c]) (o_res o)) in *.
+        destruct (mu_upd (set_cq s rest) (c_op c) o o' Hk) as (A & B & C).
+        cbn [o_inflight o_q o_buf o'] in A, B, C. rewrite app_length in B. cbn [length] in B.
+        unfold mu. cbn [cq set_cq upd_op set_ops loose pend]. 
+        change (handle_ids (upd_op (set_cq s rest) (c_op c) o')) with (handle_ids s).
+        change (infl_cnt (set_cq s rest)) with (infl_cnt s) in A. change (q_cnt (set_cq s rest)) with (q_cnt s) in B.
+        change (opbuf_ids (set_cq s rest)) with (opbuf_ids s) in C.
+        rewrite Hc. cbn [length]. destruct (o_inflight o); lia.
+      - destruct (c_id c) as [id|].
+        + destruct (slot_take (slots (set_cq s rest)) id) as [sl|]; [|contradiction].
+          set (o' := mk_op (o_inflight o) (o_kdone o) [id] (o_q o) (Some (c_res c))) in *.
+          set (s3 := set_nbusy (upd_op (set_slots (set_cq s rest) sl) (c_op c) o') _) in *.
+          destruct (reset_all s3 (o_buf o)) as [s4|pc] eqn:E4; [|contradiction].
+          eexists. split; [reflexivity|]. split; [exact G|].
+          pose proof (reset_all_holders _ _ _ E4) as Hs4.
+          split; [destruct Hs4 as (_&_&R&_); rewrite R; exact Hr|].
+          rewrite (mu_same_holders _ _ Hs4).
+          destruct (mu_upd (set_slots (set_cq s rest) sl) (c_op c) o o' Hk) as (A & B & C).
+          cbn [o_inflight o_q o_buf o' length] in A, B, C.
+          unfold mu, s3.
+          change (infl_cnt (set_nbusy ?x _)) with (infl_cnt x). change (q_cnt (set_nbusy ?x _)) with (q_cnt x).
+          change (opbuf_ids (set_nbusy ?x _)) with (opbuf_ids x).
+          cbn [cq set_cq set_nbusy upd_op set_ops set_slots loose pend].
+          change (handle_ids (set_nbusy _ _)) with (handle_ids s).
+          change (infl_cnt (set_slots (set_cq s rest) sl)) with (infl_cnt s) in A.
+          change (q_cnt (set_slots (set_cq s rest) sl)) with (q_cnt s) in B.
+          change (opbuf_ids (set_slots (set_cq s rest) sl)) with (opbuf_ids s) in C.
+          rewrite Hc. cbn [length]. destruct (o_inflight o); lia.
+        + eexists. split; [reflexivity|]. split; [exact G|]. split; [exact Hr|].
+          set (o' := mk_op (o_inflight o) (o_kdone o) (o_buf o) (o_q o) (Some (c_res c))) in *.
+          destruct (mu_upd (set_cq s rest) (c_op c) o o' Hk) as (A & B & C).
+          cbn [o_inflight o_q o_buf o'] in A, B, C.
+          unfold mu.
+          change (infl_cnt (set_nbusy ?x _)) with (infl_cnt x). change (q_cnt (set_nbusy ?x _)) with (q_cnt x).
+          change (opbuf_ids (set_nbusy ?x _)) with (opbuf_ids x).
+          cbn [cq set_cq set_nbusy upd_op set_ops loose pend].
+          change (handle_ids (set_nbusy _ _)) with (handle_ids s).
+          change (infl_cnt (set_cq s rest)) with (infl_cnt s) in A. change (q_cnt (set_cq s rest)) with (q_cnt s) in B.
+          change (opbuf_ids (set_cq s rest)) with (opbuf_ids s) in C.
+          rewrite Hc. cbn [length]. destruct (o_inflight o); lia. }
+  assert (Hi0 : infl_cnt s = 0) by (unfold infl_cnt; rewrite Hfi; reflexivity).
+  assert (Hfree : forall k o, nth_error (ops s) k = Some o -> op_free s o = true).
+  { intros k o Hk. apply (drained_op_free s k o Hh Hr Hfi Hc Hk). }
+  (* 3. queued multishot results of dropped operations *)
+  destruct (flat_map o_q (ops s)) as [|e0 fq] eqn:Hfq.
+  2:{ destruct (exists_nonempty o_q (ops s) ltac:(rewrite Hfq; discriminate)) as (k & o & Hk & Hq).
+      destruct (o_q o) as [|e q] eqn:Hqo; [congruence|].
+      exists (LGuardDrop k).
+      pose proof (step_good s (LGuardDrop k) Hinv) as G.
+      set (o' := mk_op (o_inflight o) (o_kdone o) (o_buf o) q (o_res o)).
+      assert (Hstep : exists s', step s (LGuardDrop k) = Some (Ok s') /\ same_holders (upd_op s k o') s').
+      { cbn [step] in G |- *. rewrite Hk, (Hfree k o Hk), Hqo in G |- *. cbn [negb] in G |- *.
+        change (mk_op (o_inflight o) (o_kdone o) (o_buf o) q (o_res o)) with o' in G |- *.
+        destruct e as [id|].
+        - destruct (slot_take (slots (upd_op s k o')) id) as [sl|].
+          + destruct (sh_reset (set_slots (upd_op s k o') sl) id) as [s'|pc] eqn:E; [|contradiction].
+            exists s'. split; [reflexivity|]. pose proof (sh_reset_holders _ _ _ E) as (a1&a2&a3&a4&a5&a6&a7&a8&a9).
+            repeat split; assumption.
+          + eexists. split; [reflexivity|repeat split].
+        - eexists. split; [reflexivity|repeat split]. }
+      destruct Hstep as (s' & E & Hs'). exists s'. split; [exact E|].
+      rewrite E in G. split; [exact G|]. split; [destruct Hs' as (_&_&R&_); rewrite R; exact Hr|].
+      rewrite (mu_same_holders _ _ Hs').
+      destruct (mu_upd s k o o' Hk) as (A & B & C). cbn [o_inflight o_q o_buf o'] in A, B, C.
+      rewrite Hqo in B. cbn [length] in B.
+      unfold mu. change (cq (upd_op s k o')) with (cq s). change (loose (upd_op s k o')) with (loose s).
+      change (pend (upd_op s k o')) with (pend s). change (handle_ids (upd_op s k o')) with (handle_ids s).
+      destruct (o_inflight o); lia. }
+  assert (Hq0 : q_cnt s = 0) by (unfold q_cnt; rewrite Hfq; reflexivity).
+  (* 4. BufferRefs inside dropped operations *)
+  destruct (opbuf_ids s) as [|b0 fb] eqn:Hfb.
+  2:{ destruct (exists_nonempty o_buf (ops s) ltac:(unfold opbuf_ids in Hfb; rewrite Hfb; discriminate)) as (k & o & Hk & Hb).
+      destruct (o_buf o) as [|id b] eqn:Hbo; [congruence|].
+      exists (LOpBufDrop k).
+      pose proof (step_good s (LOpBufDrop k) Hinv) as G.
+      set (o' := mk_op (o_inflight o) (o_kdone o) b (o_q o) (o_res o)).
+      cbn [step] in G |- *. rewrite Hk, (Hfree k o Hk), Hbo in G |- *. cbn [negb] in G |- *.
+      change (mk_op (o_inflight o) (o_kdone o) b (o_q o) (o_res o)) with o' in G |- *.
+      destruct (sh_reset (upd_op s k o') id) as [s'|pc] eqn:E; [|contradiction].
+      exists s'. split; [reflexivity|]. split; [exact G|].
+      pose proof (sh_reset_holders _ _ _ E) as Hs'.
+      split; [destruct Hs' as (_&_&R&_); rewrite R; exact Hr|].
+      rewrite (mu_same_holders _ _ Hs').
+      destruct (mu_upd s k o o' Hk) as (A & B & C). cbn [o_inflight o_q o_buf o'] in A, B, C.
+      rewrite Hbo in C. cbn [length] in C. rewrite Hfb in C.
+      unfold mu. change (cq (upd_op s k o')) with (cq s). change (loose (upd_op s k o')) with (loose s).
+      change (pend (upd_op s k o')) with (pend s). change (handle_ids (upd_op s k o')) with (handle_ids s).
+      rewrite Hfb. destruct (o_inflight o); lia. }
+  (* 5. a BufferRef of an operation under construction *)
+  destruct (pend s) as [|id p] eqn:Hp.
+  2:{ exists LPendDrop.
+      pose proof (step_good s LPendDrop Hinv) as G.
+      cbn [step] in G |- *. rewrite Hp in G |- *.
+      destruct (sh_reset (set_pend s p) id) as [s'|pc] eqn:E; [|contradiction].
+      exists s'. split; [reflexivity|]. split; [exact G|].
+      pose proof (sh_reset_holders _ _ _ E) as Hs'.
+      split; [destruct Hs' as (_&_&R&_); rewrite R; exact Hr|].
+      rewrite (mu_same_holders _ _ Hs').
+      unfold mu. change (infl_cnt (set_pend s p)) with (infl_cnt s). change (q_cnt (set_pend s p)) with (q_cnt s).
+      change (opbuf_ids (set_pend s p)) with (opbuf_ids s). change (handle_ids (set_pend s p)) with (handle_ids s).
+      cbn [cq loose pend set_pend]. rewrite Hp. cbn [length]. lia. }
+  (* 6. a popped multishot result becomes a handle *)
+  destruct (loose s) as [|id lo] eqn:Hlo.
+  2:{ exists (LTakeLoose id).
+      pose proof (step_good s (LTakeLoose id) Hinv) as G.
+      cbn [step] in G |- *. rewrite Hr, Hlo in G |- *. unfold mem in G |- *. cbn [existsb] in G |- *.
+      rewrite Nat.eqb_refl in G |- *. cbn [orb negb remove_one] in G |- *. rewrite Nat.eqb_refl in G |- *.
+      destruct (slot_take (slots (set_loose s lo)) id) as [sl|].
+      - eexists. split; [reflexivity|]. split; [exact G|]. split; [exact Hr|].
+        unfold mu, handle_ids. cbn [cq loose pend handles set_handles set_slots set_loose].
+        change (infl_cnt (set_handles _ _)) with (infl_cnt s). change (q_cnt (set_handles _ _)) with (q_cnt s).
+        change (opbuf_ids (set_handles _ _)) with (opbuf_ids s).
+        rewrite opt_ids_app, app_length. rewrite Hlo. cbn [length opt_ids flat_map app]. lia.
+      - eexists. split; [reflexivity|]. split; [exact G|]. split; [exact Hr|].
+        unfold mu. cbn [cq loose pend set_loose]. change (infl_cnt (set_loose _ _)) with (infl_cnt s).
+        change (q_cnt (set_loose _ _)) with (q_cnt s). change (opbuf_ids (set_loose _ _)) with (opbuf_ids s).
+        change (handle_ids (set_loose _ _)) with (handle_ids s). rewrite Hlo. cbn [length]. lia. }
+  (* 7. the user drops a handle *)
+  destruct (handle_ids s) as [|h0 fh] eqn:Hfh.
+  { exfalso. unfold mu in Hmu. rewrite Hi0, Hq0, Hfb, Hfh, Hc, Hlo, Hp in Hmu. cbn [length] in Hmu. lia. }
+  destruct (exists_handle (handles s) ltac:(unfold handle_ids in Hfh; rewrite Hfh; discriminate)) as (h & id & Hn).
+  exists (LDropHandle h).
+  pose proof (step_good s (LDropHandle h) Hinv) as G.
+  cbn [step] in G |- *. unfold live_handle in G |- *. rewrite Hn in G |- *.
+  destruct (sh_reset (set_handles s (set_nth (handles s) h None)) id) as [s'|pc] eqn:E; [|contradiction].
+  exists s'. split; [reflexivity|]. split; [exact G|].
+  pose proof (sh_reset_holders _ _ _ E) as Hs'.
+  split; [destruct Hs' as (_&_&R&_); rewrite R; exact Hr|].
+  rewrite (mu_same_holders _ _ Hs').
+  pose proof (length_flat_map_set_nth' (fun e : option nat => match e with Some i => [i] | None => [] end)
+                                        (handles s) h (Some id) None Hn) as L.
+  cbn beta iota in L. cbn [length] in L.
+  unfold mu, handle_ids, opt_ids in *. cbn [cq loose pend handles set_handles].
+  change (infl_cnt (set_handles _ _)) with (infl_cnt s). change (q_cnt (set_handles _ _)) with (q_cnt s).
+  change (opbuf_ids (set_handles _ _)) with (opbuf_ids s). lia.
+Qed.
+
+Lemma mu_zero_quiet s : mu s = 0 -> quiet s = true.
+Proof.
+  unfold mu. intros H.
+  assert (A : length (cq s) = 0) by lia. assert (B : length (loose s) = 0) by lia.
+  assert (C : q_cnt s = 0) by lia. assert (D : length (pend s) = 0) by lia.
+  assert (E : length (opbuf_ids s) = 0) by lia. assert (F : length (handle_ids s) = 0) by lia.
+  unfold quiet, n_selected, n_transit, n_inop, n_handles. rewrite B, D, E, F.
+  apply length_zero_nil in A. unfold q_cnt in C. apply length_zero_nil in C.
+  assert (G1 : cq_ids s = []) by (unfold cq_ids; rewrite A; destruct (released s); reflexivity).
+  assert (G2 : guard_ids s = []).
+  { unfold guard_ids, guard_ids_of. destruct (released s); [apply flat_map_const_nil|].
+    induction (ops s) as [|o l IH]; [reflexivity|]. cbn [flat_map] in C |- *.
+    apply app_eq_nil in C. destruct C as (C1 & C2). rewrite C1, (IH C2). reflexivity. }
+  rewrite G1, G2. reflexivity.
+Qed.
+
+Lemma drain_exists n : forall s, mu s <= n -> inv s -> released s = false ->
+  exists ls s', steps s ls = Some (Ok s') /\ inv s' /\ released s' = false /\ quiet s' = true.
+Proof.
+  induction n as [|n IH]; intros s Hn Hinv Hr.
+  - exists [], s. split; [reflexivity|]. split; [exact Hinv|]. split; [exact Hr|]. apply mu_zero_quiet. lia.
+  - destruct (Nat.eq_dec (mu s) 0) as [H0|Hpos].
+    + exists [], s. split; [reflexivity|]. split; [exact Hinv|]. split; [exact Hr|]. apply mu_zero_quiet. exact H0.
+    + destruct (progress s Hinv Hr ltac:(lia)) as (l & s1 & E1 & I1 & R1 & M1).
+      destruct (IH s1 ltac:(lia) I1 R1) as (ls & s' & Es & I' & R' & Q').
+      exists (l :: ls), s'. split; [cbn [steps]; rewrite E1; exact Es|]. tauto.
+Qed.
+
+Lemma inv_quiet_full s : inv s -> released s = false -> quiet s = true -> length (ring_ids s) = nbuf s.
+Proof.
+  intros (P & _) Hr Hq.
+  assert (Hlen : length (all_ids s) = nbuf s).
+  { apply length_of_occ.
+    - intros x Hx. pose proof (p_tot _ _ _ P x Hx) as E. unfold tot, Ssum, Osum in E. unfold all_ids. occs. occs in E. lia.
+    - intros x Hx. pose proof (p_out _ _ _ P x Hx) as E. unfold tot, Ssum, Osum in E. unfold all_ids. occs. occs in E. lia. }
+  unfold all_ids in Hlen. rewrite !app_length in Hlen. rewrite (p_freed _ _ _ P Hr) in Hlen. cbn [length] in Hlen.
+  unfold quiet in Hq. apply Nat.eqb_eq in Hq. unfold n_selected, n_transit, n_inop, n_handles in Hq. lia.
+Qed.
+
+Theorem drain_thm u size ls s :
+  1 <= size -> (NN size <= 32768)%N -> reach u size ls s -> released s = false ->
+  exists ls' s', steps s ls' = Some (Ok s') /\ released s' = false /\ quiet s' = true /\
+                 length (ring_ids s') = nbuf s /\ nbuf s' = nbuf s.
+Proof.
+  intros H1 H2 Hr Hrel. pose proof (reach_inv u size ls s H1 H2 Hr) as Hinv.
+  destruct (drain_exists (mu s) s (le_n _) Hinv Hrel) as (ls' & s' & Es & I' & R' & Q').
+  exists ls', s'. destruct (steps_nbuf _ _ _ Es) as (Hn & _).
+  split; [exact Es|]. split; [exact R'|]. split; [exact Q'|]. split; [|exact Hn].
+  rewrite <- Hn. apply inv_quiet_full; assumption.
+Qed.
+
+(* ====================================================================== *)
+(* 9. the statements of prop/C07.v, with the initial state made explicit    *)
+
+Lemma reach_of u size s0 ls s : pool_new u size = Ok s0 -> steps s0 ls = Some (Ok s) -> reach u size ls s.
+Proof. intros A B. exists s0. split; assumption. Qed.
+
+Lemma c07_exclusive : forall (u : bool) (size : nat) (s0 : st) (ls : list label) (s : st),
+  1 <= size -> (NN size <= 32768)%N ->
+  pool_new u size = Ok s0 -> steps s0 ls = Some (Ok s) ->
+  (forall id, id < nbuf s -> exists o, owners s id = [o]) /\
+  (forall id, nbuf s <= id -> owners s id = []) /\
+  (forall h1 h2 id, live_handle s h1 = Some id -> live_handle s h2 = Some id -> h1 = h2) /\
+  (forall h id, live_handle s h = Some id -> owners s id = [OwHandle h]) /\
+  (forall id, kernel_target s = Some id -> owners s id = [OwRing]).
+Proof. intros u size s0 ls s H1 H2 A B. apply (exclusive_thm u size ls s H1 H2 (reach_of _ _ _ _ _ A B)). Qed.
+
+Lemma c07_conservation : forall (u : bool) (size : nat) (s0 : st) (ls : list label) (s : st),
+  1 <= size -> (NN size <= 32768)%N ->
+  pool_new u size = Ok s0 -> steps s0 ls = Some (Ok s) ->
+  size <= nbuf s /\ (exists e : N, (e <= 15)%N /\ NN (nbuf s) = (2 ^ e)%N) /\
+  length (ring_ids s) + n_selected s + n_transit s + n_inop s + n_handles s + length (freed s) = nbuf s /\
+  (released s = false -> freed s = []) /\
+  (released s = false -> quiet s = true ->
+     length (ring_ids s) = nbuf s /\ forall id, id < nbuf s -> In id (ring_ids s)) /\
+  (released s = true -> ring_ids s = [] /\ n_selected s = 0 /\
+                        n_transit s + n_inop s + n_handles s + length (freed s) = nbuf s).
+Proof. intros u size s0 ls s H1 H2 A B. apply (conservation_thm u size ls s H1 H2 (reach_of _ _ _ _ _ A B)). Qed.
+
+Lemma c07_never_blocks : forall (u : bool) (size : nat) (s0 : st) (ls : list label) (s : st),
+  1 <= size -> (NN size <= 32768)%N ->
+  pool_new u size = Ok s0 -> steps s0 ls = Some (Ok s) -> released s = false ->
+  exists ls' s', steps s ls' = Some (Ok s') /\ released s' = false /\ quiet s' = true /\
+                 length (ring_ids s') = nbuf s /\ nbuf s' = nbuf s.
+Proof. intros u size s0 ls s H1 H2 A B. apply (drain_thm u size ls s H1 H2 (reach_of _ _ _ _ _ A B)). Qed.
+
+Lemma c07_no_panic : forall (u : bool) (size : nat) (s0 : st) (ls : list label) (s : st) (l : label) (c : N),
+  1 <= size -> (NN size <= 32768)%N ->
+  pool_new u size = Ok s0 -> steps s0 ls = Some (Ok s) -> step s l <> Some (Panic c).
+Proof. intros u size s0 ls s l c H1 H2 A B. apply (no_panic_thm u size ls s l c H1 H2 (reach_of _ _ _ _ _ A B)). Qed.
+
+Lemma c07_exhaustion_uring : forall (size : nat) (s0 : st) (ls : list label) (s : st),
+  1 <= size -> (NN size <= 32768)%N ->
+  pool_new true size = Ok s0 -> steps s0 ls = Some (Ok s) -> released s = false ->
+  (ring_empty s = true <-> ring_ids s = []) /\
+  (ring_ids s = [] -> forall k more r, step s (LKernel k true more r) = None) /\
+  (ring_ids s = [] -> forall k o, nth_error (ops s) k = Some o -> o_inflight o = true -> o_kdone o = false ->
+     exists s1, step s (LKernel k false false RNoBufs) = Some (Ok s1) /\
+                cq s1 = cq s ++ [mk_cqe k None false RNoBufs]) /\
+  (ring_ids s <> [] -> forall k more, step s (LKernel k false more RNoBufs) = None).
+Proof.
+  intros size s0 ls s H1 H2 A B Hrel.
+  assert (Hu : uring s = true).
+  { destruct (pool_new_inv true size H1 H2) as (s0' & E0' & _ & _ & Hu0 & _).
+    rewrite A in E0'. injection E0' as <-. destruct (steps_nbuf _ _ _ B) as (_ & C). congruence. }
+  apply (exhaustion_uring_thm true size ls s H1 H2 (reach_of _ _ _ _ _ A B) Hu Hrel).
+Qed.
+
+Lemma c07_ring_index : forall (size : nat) (s0 : st) (ls : list label) (s : st),
+  1 <= size -> (NN size <= 32768)%N ->
+  pool_new true size = Ok s0 -> steps s0 ls = Some (Ok s) -> released s = false ->
+  (tail s < U16)%N /\ (head s < U16)%N /\ ring_count s <= nbuf s /\ length (cells s) = nbuf s /\
+  ring_idx (tail s) 0%N (nbuf s) = Ok (nn (tail s mod NN (nbuf s))%N) /\
+  nn (tail s mod NN (nbuf s))%N < nbuf s /\
+  NoDup (map (fun i => kernel_idx s (head s + NN i)%N) (seq 0 (ring_count s))) /\
+  (ring_count s < nbuf s ->
+   ~ In (nn (tail s mod NN (nbuf s))%N) (map (fun i => kernel_idx s (head s + NN i)%N) (seq 0 (ring_count s)))) /\
+  (ring_empty s = true <-> ring_ids s = []).
+Proof. intros size s0 ls s H1 H2 A B. apply (ring_index_thm size ls s H1 H2 (reach_of _ _ _ _ _ A B)). Qed.
+
+Lemma c07_ring_index_wrap : forall (n : nat) (x : N),
+  (exists e : N, (e <= 15)%N /\ NN n = (2 ^ e)%N) ->
+  ((x mod U16) mod NN n = x mod NN n)%N /\ (N.land (x mod U16) (NN n - 1) = x mod NN n)%N.
+Proof.
+  intros n x Hp. split; [apply mod_U16_mod; exact Hp|].
+  rewrite land_mask_mod by exact Hp. apply mod_U16_mod. exact Hp.
+Qed.
+
+Lemma c07_pool_new : forall (u : bool) (size : nat),
+  1 <= size -> (NN size <= 32768)%N ->
+  exists s0, pool_new u size = Ok s0 /\ size <= nbuf s0 /\
+             (exists e : N, (e <= 15)%N /\ NN (nbuf s0) = (2 ^ e)%N) /\
+             uring s0 = u /\ released s0 = false /\ ring_ids s0 = seq 0 (nbuf s0) /\ quiet s0 = true /\
+             (u = true -> cells s0 = seq 0 (nbuf s0) /\ tail s0 = NN (nbuf s0) /\ head s0 = 0%N).
+Proof.
+  intros u size H1 H2.
+  destruct (pool_new_inv u size H1 H2) as (s0 & E & (P & _) & Hsz & Hu & Hr & Hri & Hcq & Hops & Hpe & Hlo & Hha & _ & Hc).
+  exists s0. split; [exact E|]. split; [exact Hsz|]. split; [apply (p_pow _ _ _ P)|]. split; [exact Hu|].
+  split; [exact Hr|]. split; [exact Hri|]. split; [|exact Hc].
+  unfold quiet, n_selected, n_transit, n_inop, n_handles, cq_ids, guard_ids, opbuf_ids, handle_ids.
+  rewrite Hr, Hcq, Hops, Hpe, Hlo, Hha. reflexivity.
 Qed.
